@@ -142,6 +142,54 @@ def build(prog):
         f = ev.loop_sum(ev.InsertAxis(pick, c(2)) * row[:2] if False else ev.InsertAxis(pick, c(m)) * row, i)
         g = ev.loop_concatenate(ev.InsertAxis(pick, c(1)), i)
         return (f, g), args
+    if fam == 'P16':  # a loop concatenation added to / nested in other terms: slices of a shared array receive in-place additions and copies
+        X = arg('x', (n, m))
+        B = arg('b', (n * m,))
+        row = ev.get(X, 0, i)
+        cat = ev.loop_concatenate(row * row, i)
+        f = cat + B                      # Add with a LoopConcatenate operand: compile_with_out into the slices
+        j = ev.loop_index('j', n)
+        g = ev.loop_sum(ev.loop_concatenate(ev.get(X, 0, i) * ev.InsertAxis(ev.Sum(ev.get(X, 0, j)), c(m)), i), j) if prog.get('nest') else ev.loop_concatenate(ev.InsertAxis(row, c(2)), i)
+        return (f, g, cat), args
+    if fam == 'P17':  # matrix-like assembly: scatter through two index arrays and a diagonal, all into shared accumulators
+        L = int(prog.get('L', 4))
+        X = arg('x', (n, m, m))
+        V = arg('v', (n, m))
+        D = c(numpy.array([[rng.randrange(L) for _ in range(m)] for _ in range(n)], dtype=int).reshape(n, m))
+        dof = ev.get(D, 0, i)
+        blk = ev.get(X, 0, i)
+        A = ev.loop_sum(ev._inflate(ev._inflate(blk, dof, c(L), 1), dof, c(L), 0), i)
+        d = ev.loop_sum(ev.diagonalize(ev._inflate(ev.get(V, 0, i), dof, c(L), 0)), i)
+        return (A, d, A + d), args
+    if fam == 'P18':  # the loop length and the chunk sizes depend on an argument
+        N = ev.InRange(ev.Argument('N', (), int), c(n + 1))
+        args['N'] = numpy.array(int(prog.get('nrun', n)))
+        k = ev.loop_index('k', N)
+        X = arg('x', (n + 1, m))
+        row = ev.get(X, 0, k)
+        f = ev.loop_sum(row * row, k)
+        g = ev.loop_concatenate(ev.InsertAxis(ev.Sum(row), k + 1), k)
+        return (f, g), args
+    if fam == 'P19':  # two consecutive outer loops of different length sharing one accumulator chain, plus a loop whose result feeds an index
+        n2 = int(prog.get('n2', 3))
+        X = arg('x', (n, m))
+        Z = arg('z', (n2, m))
+        k = ev.loop_index('k', n2)
+        s1 = ev.loop_sum(ev.get(X, 0, i), i)
+        s2 = ev.loop_sum(ev.get(Z, 0, k) * s1, k)
+        cnt = ev.loop_sum(ev.astype(ev.Greater(ev.Sum(ev.get(Z, 0, k)), ev.astype(c(0), T if dt != 'complex' else float)), int) if dt != 'complex' else c(1), k)   # integer result of a parallel loop
+        tot = s1 + s2
+        return (tot, cnt, ev.InsertAxis(tot, c(2)), s2 * ev.astype(cnt, T)), args
+    if fam == 'P20':  # nested concatenations: the inner loop runs privately inside a worker, its result is copied into a shared slice
+        k = int(prog.get('k', 2))
+        Y = arg('y', (n, k, m))
+        j = ev.loop_index('j', k)
+        yi = ev.get(Y, 0, i)
+        inner = ev.loop_concatenate(ev.get(yi, 0, j) * ev.get(yi, 0, j), j)      # shape (k*m,)
+        f = ev.loop_concatenate(inner, i)
+        g = ev.loop_sum(inner, i)
+        h = ev.loop_concatenate(ev.InsertAxis(ev.loop_sum(ev.Sum(ev.get(yi, 0, j)), j), c(1)), i)
+        return (f, g, h), args
     raise ValueError(f'unknown family {fam}')
 
 
@@ -153,9 +201,15 @@ def gen_prog(rng, families, small=False):
         prog['scalar'] = rng.random() < 0.3
     if fam == 'P2':
         prog['L'] = rng.choice([1, 2, 4, 6])
-    if fam in ('P5', 'P15'):
+    if fam in ('P5', 'P15', 'P20'):
         prog['k'] = rng.choice([1, 2, 3])
-    if fam == 'P6':
+    if fam == 'P16':
+        prog['nest'] = rng.random() < 0.5
+    if fam == 'P17':
+        prog['L'] = rng.choice([1, 2, 4, 6])
+    if fam == 'P18':
+        prog['nrun'] = rng.randint(0, prog['n'])
+    if fam in ('P6', 'P19'):
         prog['n2'] = rng.choice([1, 2, 3, 5])
     if fam == 'P14':
         prog['n'] = max(prog['n'], 2)
